@@ -123,6 +123,13 @@ def step (st : St) (line : String) : St × String :=
     | some t, some i, some v =>
       if i < M32 ∧ t.holds v then ({ st with buf := st.buf.put ⟨opPut, i, putAnyInt t v⟩ }, "ok") else (st, "bad-op")
     | _, _, _ => (st, "bad-op")
+  | ["readnum", hex] =>
+    -- the any-size accessors of the reader on one operation value
+    match unhex hex with
+    | some bs =>
+      let sh := fun {α} [ToString α] (o : Option α) => match o with | some v => toString v | none => "panic"
+      (st, s!"int={sh (readIntAny bs)} uint={sh (readUintAny bs)}")
+    | none => (st, "bad-op")
   | ["readany", hex] =>
     -- what an `int` / `uint` column makes of an operation value of any width (Reader.Int / Reader.Uint)
     match unhex hex with
@@ -182,6 +189,18 @@ def step (st : St) (line : String) : St × String :=
     | some bs =>
       match readRawBuf ⟨bs, false⟩ with
       | .ok (r, rest) => (st, showReadBuf r rest.bytes.length)
+      | .error .eof => (st, "err eof")
+      | .error .bad => (st, "err bad")
+  | ["loadfrom", hex] =>
+    -- `Buffer.ReadFrom` into a fresh buffer which then becomes the current one (writes continue on it)
+    match unhex hex with
+    | none => (st, "bad-op")
+    | some bs =>
+      match readRawBuf ⟨bs, false⟩ with
+      | .ok (r, _) =>
+        match r.toBuf with
+        | some b => ({ st with buf := b }, "ok")
+        | none => (st, "panic")
       | .error .eof => (st, "err eof")
       | .error .bad => (st, "err bad")
   | ["commit-writeto", c, id] =>
